@@ -145,8 +145,15 @@ def cases(tier, seed):
             spec = _filter_spec(rng, names, glyphs)
             spec = {"name": "PropagateAnchors", "include": spec["include"]}
             step.update({"glyphs": glyphs, "lib": lib})
+        steps = [step]
+        if spec["name"] == "Transformations" and rng.random() < 0.5:
+            # the same filter object then transforms a second font with other vertical metrics (the matrix depends on them)
+            g2 = gen.glyphset(rng)
+            spec["include"] = {"kind": "all"} if spec["include"]["kind"] in ("list", "exclude") else spec["include"]
+            steps.append({"glyphs": g2, "info": {"capHeight": rng.choice([640, 700, 750]), "xHeight": rng.choice([460, 500, 530])},
+                          "separate": rng.random() < 0.85})
         out.append({"cid": f"c15-{seed}-{k}", "lib": rng.choice(["ufoLib2", "defcon"]), "filter": spec,
-                    "steps": [step], "again": spec["name"] == "PropagateAnchors"})
+                    "steps": steps, "again": spec["name"] == "PropagateAnchors"})
     return out
 
 
